@@ -163,11 +163,24 @@ func (e *Exec) run() {
 		_ = i
 	}
 	e.setupTracks()
+	e.checkRefinesPre(entry)
+	// implicit precondition: the receiver of a method of a type with a declared invariant is valid
+	if fn.Signature.Recv() != nil && len(fn.Params) > 0 {
+		if inv, _ := e.typeInvOf(fn.Params[0].Type(), e.env[fn.Params[0]], entry); inv != "" {
+			c.fact(inv)
+		}
+	}
 	// requires
 	sc := e.scope(entry, entry)
 	for _, r := range e.con.Requires {
 		t := e.evalBool(sc, r)
 		c.fact(t)
+	}
+	for _, r := range e.con.Assumes {
+		c.fact(e.evalBool(sc, r))
+		if len(e.con.Refines) > 0 {
+			c.assumed["assumed precondition of "+e.con.ID+" (not established by callers through "+strings.Join(e.con.Refines, ", ")+"): "+r.Src] = true
+		}
 	}
 	if len(e.con.Panics) > 0 {
 		var ps []string
@@ -942,6 +955,7 @@ func (e *Exec) execBlock(b *ssa.BasicBlock, st State) {
 			e.env[x] = e.named(e.binop(x.Op, a, bb, x.X.Type(), x.Type(), &st, x.Pos()), "v")
 		case *ssa.Store:
 			e.guardCheck(x.Addr, true, &st, x.Pos())
+			e.stableStoreCheck(x.Addr, &st, x.Pos())
 			p := e.val(x.Addr)
 			if p.Loc == nil {
 				e.safety("nil", &st, not(fmt.Sprintf("(= %s nil)", p.T)), "nil dereference in store", x.Pos())
@@ -958,6 +972,10 @@ func (e *Exec) execBlock(b *ssa.BasicBlock, st State) {
 			e.env[x] = t.Tuple[x.Index]
 		case *ssa.MakeInterface:
 			v := e.val(x.X)
+			if inv, ti := e.typeInvOf(x.X.Type(), v, st.heap); ti != nil {
+				c.oblige("typeinv", fmt.Sprintf("typeinv.make[%s]@b%d", ti.Type, e.curBlock.Index), st.pc, inv,
+					"type invariant of "+ti.Type+" holds where the value becomes reachable through an interface: "+ti.C.Src, e.pos(x.Pos()))
+			}
 			tag := c.typeTag(x.X.Type())
 			e.env[x] = Val{T: fmt.Sprintf("(mk_Iface %d %s)", tag, c.box(v)), S: SIface, GT: x.Type()}
 		case *ssa.ChangeInterface:
@@ -1629,28 +1647,7 @@ func (e *Exec) immutableGlobal(g *ssa.Global) (Val, bool) {
 func (e *Exec) checkRefines(st *State, results []Val, pos token.Pos) {
 	c := e.c
 	for _, id := range e.con.Refines {
-		icon := c.CS.ByID["iface "+id]
-		if icon == nil {
-			e.unsupported("refines %s: no such interface contract", id)
-		}
-		if len(e.fn.Params) == 0 {
-			e.unsupported("refines %s: function has no receiver", id)
-		}
-		recv := e.env[e.fn.Params[0]]
-		binder := map[string]Val{}
-		tag := c.typeTag(e.fn.Params[0].Type())
-		binder["self"] = Val{T: fmt.Sprintf("(mk_Iface %d %s)", tag, c.box(recv)), S: SIface}
-		names := icon.Params
-		if len(names) == 0 {
-			for i := 1; i < len(e.fn.Params); i++ {
-				names = append(names, fmt.Sprintf("arg%d", i-1))
-			}
-		}
-		for i, n := range names {
-			if i+1 < len(e.fn.Params) {
-				binder[n] = e.env[e.fn.Params[i+1]]
-			}
-		}
+		icon, binder := e.refineBinder(id)
 		sc := &Scope{e: e, c: c, cur: st.heap, old: c.entry, params: binder, names: map[string]Val{}, pkg: e.fn.Pkg.Pkg, tracks: map[string]*trackInfo{}, results: results}
 		for i, en := range icon.Ensures {
 			if mentionsTracks(en.E, icon) {
@@ -1658,6 +1655,82 @@ func (e *Exec) checkRefines(st *State, results []Val, pos token.Pos) {
 			}
 			g := e.evalBool(sc, en)
 			c.oblige("refine", fmt.Sprintf("refine[%s:%d]@ret%d", lastSeg(id), i+1, e.retCount), st.pc, g, "interface contract "+id+": "+en.Src, e.pos(pos))
+		}
+		// the refined contract's frame: callers through the interface rely on its modifies clause
+		fsc := &Scope{e: e, c: c, cur: c.entry, old: c.entry, params: binder, names: map[string]Val{}, pkg: e.fn.Pkg.Pkg, tracks: map[string]*trackInfo{}}
+		e.checkFrameAgainst(icon, fsc, "refine-frame:"+lastSeg(id), st, pos)
+	}
+}
+
+// refineBinder binds the parameter names of a refined (interface or callback) contract to the
+// parameters of the function under verification.
+func (e *Exec) refineBinder(id string) (*Contract, map[string]Val) {
+	c := e.c
+	binder := map[string]Val{}
+	if strings.HasPrefix(id, "callback:") {
+		icon := c.CS.ByID["callback "+strings.TrimPrefix(id, "callback:")]
+		if icon == nil {
+			e.unsupported("refines %s: no such callback contract", id)
+		}
+		names := icon.Params
+		if len(names) == 0 {
+			for i := range e.fn.Params {
+				names = append(names, fmt.Sprintf("arg%d", i))
+			}
+		}
+		for i, n := range names {
+			if i < len(e.fn.Params) {
+				binder[n] = e.env[e.fn.Params[i]]
+			}
+		}
+		return icon, binder
+	}
+	icon := c.CS.ByID["iface "+id]
+	if icon == nil {
+		e.unsupported("refines %s: no such interface contract", id)
+	}
+	if len(e.fn.Params) == 0 {
+		e.unsupported("refines %s: function has no receiver", id)
+	}
+	recv := e.env[e.fn.Params[0]]
+	tag := c.typeTag(e.fn.Params[0].Type())
+	binder["self"] = Val{T: fmt.Sprintf("(mk_Iface %d %s)", tag, c.box(recv)), S: SIface}
+	names := icon.Params
+	if len(names) == 0 {
+		for i := 1; i < len(e.fn.Params); i++ {
+			names = append(names, fmt.Sprintf("arg%d", i-1))
+		}
+	}
+	for i, n := range names {
+		if i+1 < len(e.fn.Params) {
+			binder[n] = e.env[e.fn.Params[i+1]]
+		}
+	}
+	return icon, binder
+}
+
+// checkRefinesPre: what callers through the refined contract establish (its requires) must imply
+// the function's own preconditions. Generated before the function's requires are assumed.
+func (e *Exec) checkRefinesPre(entry *Heap) {
+	c := e.c
+	for _, id := range e.con.Refines {
+		icon, binder := e.refineBinder(id)
+		sc := &Scope{e: e, c: c, cur: entry, old: entry, params: binder, names: map[string]Val{}, pkg: e.fn.Pkg.Pkg, tracks: map[string]*trackInfo{}}
+		var hyp []string
+		for _, r := range icon.Requires {
+			hyp = append(hyp, e.evalBool(sc, r))
+		}
+		if !strings.HasPrefix(id, "callback:") && len(e.fn.Params) > 0 {
+			// the receiver was converted to the interface somewhere in zap, where its type invariant held
+			if inv, ti := e.typeInvOf(e.fn.Params[0].Type(), e.env[e.fn.Params[0]], entry); ti != nil {
+				hyp = append(hyp, inv)
+				c.assumed["typeinv "+ti.Type+" (established at every conversion to an interface in a function under contract; fields it mentions are stored only before publication)"] = true
+			}
+		}
+		own := e.scope(entry, entry)
+		for j, r := range e.con.Requires {
+			g := e.evalBool(own, r)
+			c.oblige("refine", fmt.Sprintf("refine-pre[%s:%d]", lastSeg(id), j+1), and(hyp...), g, "precondition follows from what callers of "+id+" establish: "+r.Src, e.pos(e.fn.Pos()))
 		}
 	}
 }
